@@ -89,7 +89,7 @@ func mayBeNilResults(r *R, only string) {
 							at = x
 						}
 					case *ssa.Call:
-						if !x.Common().IsInvoke() && len(x.Common().Args) > 0 && x.Common().Args[0] == v && x.Common().Signature().Recv() != nil {
+						if !x.Common().IsInvoke() && len(x.Common().Args) > 0 && refArgs(x.Common())[0] == v && x.Common().Signature().Recv() != nil {
 							// a method call on the result: fine when the method itself tolerates a nil receiver
 							if m := staticCallee(x.Common()); m != nil && nilSafeReceiver(m) {
 								continue
